@@ -219,6 +219,10 @@ pub trait Scenario: Sync + Send + 'static {
     fn panic_is_violation(&self) -> bool {
         true
     }
+    /// Called once per process before its first run, inside a pseudo-run with a fixed entropy stream:
+    /// the place to create process-wide singletons of the code under test, so that no run pays for
+    /// (or observes) their one-time initialisation.
+    fn process_init(&self) {}
 }
 
 // ---------------------------------------------------------------------------------------
@@ -303,6 +307,7 @@ pub fn isolated<T: Send + 'static>(
         .stack_size(16 << 20)
         .spawn(move || {
             let mut ctx = Ctx::new(seed, root2, tracing);
+            seams::mark_run_thread();
             seams::disk_begin(&root_s);
             seams::begin_run(crate::prng::mix(seed ^ 0xE47_0A11));
             let r = std::panic::catch_unwind(std::panic::AssertUnwindSafe(|| f(&mut ctx)));
@@ -362,6 +367,16 @@ pub trait DynScenario: Sync + Send {
 pub struct Erased<S: Scenario>(pub std::sync::Arc<S>);
 
 fn run_case<S: Scenario>(s: &std::sync::Arc<S>, seed: u64, case: S::Case, tracing: bool) -> RunOutput {
+    static INIT: std::sync::Once = std::sync::Once::new();
+    INIT.call_once(|| {
+        let s3 = s.clone();
+        let _ = std::thread::spawn(move || {
+            crate::seams::begin_run(0x1217_C0DE);
+            s3.process_init();
+            crate::seams::end_run();
+        })
+        .join();
+    });
     let s2 = s.clone();
     let res = isolated(seed, tracing, s.watchdog_ms(), move |ctx| s2.execute(&case, ctx));
     match res {
